@@ -23,11 +23,16 @@ Programs == { B("10 PRINT \"HI\"") \o <<LF>> \o B("20 X=X+1:PRINT X"),
               <<>>,
               B("REM unnumbered") \o <<LF>> \o <<LF>> \o B("10 STOP:PRINT \"S\"") }
 Texts == { B("NEW"), B("RUN"), B("CONT"), B("15 PRINT 7"), B("PRINT 1/0"), B("5"), B("abc"), B("\""), B("PRINT 2:PRINT 3"),
-           B("  \""), B(" X = 1..2") }          \* indented lines that do not tokenize: the caret must still point at the right column
+           B("  \""), B(" X = 1..2"), B("TRACE") }          \* indented lines that do not tokenize: the caret must still point at the right column
 
-VARIABLES page, hist
-vars == <<page, hist>>
-PageView == <<page, Len(hist)>>
+\* `pre` remembers WHAT was submitted before the latest NEW (as a set).  The model forgets all of it
+\* at NEW -- which is the property -- so without `pre` in the view TLC would merge every history
+\* that ends in NEW and continue from a single representative; with it, each distinct past is
+\* continued separately, so that an adapter which carries something over NEW (a flag, a variable,
+\* the program) is driven to show it.
+VARIABLES page, hist, pre, newcmd
+vars == <<page, hist, pre, newcmd>>
+PageView == <<page, Len(hist), pre, newcmd>>
 
 Ev(k, text) == [k |-> k, text |-> text]
 
@@ -36,9 +41,12 @@ Display(P) == [shown |-> P.shown, state |-> IF P.W.trap # "" THEN "trapped" ELSE
 
 Do(e, newPage) == /\ page' = newPage
              /\ hist' = Append(hist, e)
+             /\ LET isNew == e.k = "submit" /\ e.text = B("NEW") /\ page.W.trap = "" /\ WState(page.W) = "idle"     \* the NEW command (not a reply to INPUT)
+                IN  /\ pre' = (IF isNew THEN {hist[i].text : i \in 1..Len(hist)} ELSE pre)
+                    /\ newcmd' = isNew
              /\ (EmitRows => PrintT(<<"ROW", ToJson([events |-> hist', pred |-> Display(newPage)])>>))
 
-Init == page = NewPage /\ hist = <<>>
+Init == page = NewPage /\ hist = <<>> /\ pre = {} /\ newcmd = FALSE
 Next ==
     /\ Len(hist) < MaxEvents
     /\ page.W.trap = ""
@@ -50,6 +58,5 @@ Next ==
 
 C19NoTrap == NoTrap(page)
 \* NEW yields an interpreter indistinguishable from a freshly created one
-NewIsFresh == (hist # <<>> /\ hist[Len(hist)].k = "submit" /\ hist[Len(hist)].text = B("NEW") /\ page.W.trap = "" /\ ~page.W.latch.some)
-              => page.W.I = Fresh
+NewIsFresh == (newcmd /\ page.W.trap = "" /\ ~page.W.latch.some) => page.W.I = Fresh
 =============================================================================
